@@ -108,7 +108,7 @@ theorem good_fromNumpyCol (sq : α → α) (hsq : ∀ x, 0 ≤ sq x) (c : Col α
   by_cases h : present c = []
   · rw [fromNumpyCol_of_nil sq h]; exact Or.inl ⟨rfl, rfl⟩
   · rw [fromNumpyCol_of_ne sq h]
-    exact Or.inr ⟨_, _, rfl, rfl, guardScale_pos (hsq _)⟩
+    exact Or.inr ⟨_, _, rfl, rfl, scaleOf_pos hsq _⟩
 
 def GoodBV (b : BV α) : Prop := ∀ t ∈ b.traits, GoodTrait t
 
@@ -293,19 +293,6 @@ theorem rawOk0_iff (mag : α) (truth obs : Col α) : Spec.rawOk Spec.tol0 mag tr
       · rintro ⟨rfl, hrest⟩
         obtain ⟨hlen, hall⟩ := this.mpr hrest
         exact ⟨by omega, rfl, hall⟩
-
-/-- a list whose greatest and least element coincide is constant -/
-theorem const_of_max_eq_min (a : α) (l : List α) (h : maxL a l = minL a l) : ∀ x ∈ a :: l, x = minL a l := by
-  intro x hx
-  have h1 := (maxL_spec a l).2 x hx
-  have h2 := (minL_spec a l).2 x hx
-  rw [h] at h1
-  exact le_antisymm h1 h2
-
-theorem max_eq_min_of_const (a : α) (l : List α) (v : α) (h : ∀ x ∈ a :: l, x = v) : maxL a l = minL a l := by
-  have h1 := h _ (maxL_spec a l).1
-  have h2 := h _ (minL_spec a l).1
-  rw [h1, h2]
 
 theorem map_none_eq_self {c : Col α} (h : present c = []) : c.map (fun _ => (none : Option α)) = c := by
   have hn := present_eq_nil h
